@@ -15,11 +15,23 @@ type VerifCacheInfo struct {
 	FlatTransCap int
 	StateListCap int
 	Stride       int
+	// Recounted is the cache's footprint recomputed from its actual content with
+	// the documented accounting (4 B per transition slot, 8 B per state-list
+	// slot, 48 B per map entry, 4 B per NFA state id, 1 B per accel byte),
+	// independently of whatever MemoryUsage() itself maintains.
+	Recounted int
 }
 
 // VerifInfo returns the cache's current bookkeeping.
 func (c *DFACache) VerifInfo() VerifCacheInfo {
+	recount := len(c.flatTrans)*4 + len(c.stateList)*8 + len(c.states)*48
+	for _, st := range c.states {
+		if st != nil {
+			recount += len(st.NFAStates())*4 + len(st.AccelExitBytes())
+		}
+	}
 	return VerifCacheInfo{
+		Recounted:    recount,
 		States:       len(c.states),
 		MemoryUsage:  c.MemoryUsage(),
 		Capacity:     c.capacityBytes,
